@@ -96,6 +96,9 @@ pub enum AuthSel {
     WrongKey(u64),
     ClientKey,
     Corrupt(u16),
+    /// forged authenticator: a nonce of `nonce_len` bytes, NO ciphertext at all, and `pad_words` words of zero
+    /// padding in the field (nothing was encrypted, nothing can verify)
+    EmptyCiphertext { nonce_len: u8, pad_words: u8 },
 }
 #[derive(Debug, Clone, Copy, Serialize, Deserialize, PartialEq, Eq)]
 pub enum RefidSel {
@@ -516,12 +519,28 @@ pub fn build_response(
         if with_auth {
             let nonce = seeded_bytes(seed ^ 0x0ce, 16);
             let key = match r.auth {
-                AuthSel::Proper | AuthSel::Corrupt(_) => k.s2c.clone(),
+                AuthSel::Proper | AuthSel::Corrupt(_) | AuthSel::EmptyCiphertext { .. } => k.s2c.clone(),
                 AuthSel::ClientKey => k.c2s.clone(),
                 AuthSel::WrongKey(s) => AeadKey(seeded_bytes(s, k.s2c.0.len())),
                 AuthSel::Strip => unreachable!(),
             };
             let mut ef = build_auth_ef(&key, &nonce, &out, &inner, 0);
+            if let AuthSel::EmptyCiphertext { nonce_len, pad_words } = r.auth {
+                let n = (nonce_len % 33) as usize;
+                let mut body = Vec::new();
+                body.extend((n as u16).to_be_bytes());
+                body.extend(0u16.to_be_bytes());
+                body.extend(seeded_bytes(seed ^ 0xe0, n));
+                while body.len() % 4 != 0 {
+                    body.push(0);
+                }
+                body.extend(vec![0u8; 4 * (pad_words % 8) as usize]);
+                let mut f = Vec::new();
+                f.extend(EF_AUTH.to_be_bytes());
+                f.extend(((body.len() + 4) as u16).to_be_bytes());
+                f.extend(body);
+                ef = f;
+            }
             if let AuthSel::Corrupt(pos) = r.auth {
                 let i = 8 + crate::engine::idx(pos, ef.len() - 8);
                 ef[i] ^= 0x40;
@@ -767,6 +786,7 @@ pub fn resp_strategy(nts: bool) -> BoxedStrategy<Resp> {
             1 => any::<u64>().prop_map(AuthSel::WrongKey),
             1 => Just(AuthSel::ClientKey),
             1 => any::<u16>().prop_map(AuthSel::Corrupt),
+            1 => (prop_oneof![3 => Just(16u8), 1 => 0u8..33], 0u8..8).prop_map(|(nonce_len, pad_words)| AuthSel::EmptyCiphertext { nonce_len, pad_words }),
         ]
         .boxed()
     } else {
@@ -840,9 +860,18 @@ pub fn resp_strategy(nts: bool) -> BoxedStrategy<Resp> {
 
 /// an answer a well-behaved server would give (still with arbitrary timestamps)
 pub fn honest_resp_strategy(nts: bool) -> BoxedStrategy<Resp> {
-    (1u8..5, any::<bool>(), crate::gens::u64_interesting(), crate::gens::u64_interesting(), crate::gens::u64_interesting(), crate::gens::u64_interesting(), prop_oneof![Just(1usize), 0usize..9])
-        .prop_map(move |(stratum, upgrade, t2, t3, send_time, recv_time, nc)| {
+    (
+        (prop_oneof![6 => 1u8..5, 1 => Just(16u8), 1 => 14u8..=16], prop_oneof![3 => Just(0u8), 2 => 1u8..4]),
+        any::<bool>(),
+        crate::gens::u64_interesting(),
+        crate::gens::u64_interesting(),
+        crate::gens::u64_interesting(),
+        crate::gens::u64_interesting(),
+        prop_oneof![Just(1usize), 0usize..9],
+    )
+        .prop_map(move |((stratum, li), upgrade, t2, t3, send_time, recv_time, nc)| {
             let mut r = Resp::honest(stratum);
+            r.li = li;
             r.upgrade = upgrade;
             r.t2 = t2;
             r.t3 = t3;
